@@ -135,6 +135,13 @@ func (hd *HeaderDirectives) StripRegularConditionals(header http.Header) {
 	hd.IfNoneMatch.SyncRemove(header)
 	hd.IfMatch.SyncRemove(header)
 
+	// A conditional whose value could not be parsed above (for example a date in the obsolete RFC 850
+	// form) is not held in hd, but it must not travel upstream either: the origin would evaluate the
+	// client's validator instead of ours.
+	for _, name := range []string{"If-Modified-Since", "If-Unmodified-Since", "If-None-Match", "If-Match"} {
+		header.Del(name)
+	}
+
 	// We need to keep If-Range for Range requests
 }
 
